@@ -26,6 +26,7 @@ type vAlloc struct {
 	mapAllow  bool
 	userMaps  int
 	ud        *int
+	minAlign  int // minimum alignment configured for the pool the allocation came from (0: none)
 }
 
 type vWorld struct {
@@ -53,7 +54,10 @@ const (
 //	variant bit 0: bufferImageGranularity 1 / 1024      bit 1: nonCoherentAtomSize 1 / 64
 //	variant bit 2: heap size limits {512, 1024}         bit 3: maxMemoryAllocationCount 2
 //	variant bit 4: a fourth memory type with DEVICE_COHERENT_AMD (excluded: the extension is not enabled)
-func newWorld(prop int, variant int) *vWorld {
+func newWorld(prop int, variant int) *vWorld { return newWorldH(prop, variant, 2048) }
+
+// newWorldH: as newWorld with a chosen size of heap 0.
+func newWorldH(prop int, variant int, heap0 int) *vWorld {
 	w := &vWorld{prop: prop, gran: 1, atom: 1, maxAllocs: 4096}
 	if variant&1 != 0 {
 		w.gran = 1024
@@ -72,7 +76,7 @@ func newWorld(prop int, variant int) *vWorld {
 	if variant&8 != 0 {
 		w.maxAllocs = 2
 	}
-	w.dev = newSim(simCfg{types: types, heaps: []core1_0.MemoryHeap{{Size: 2048}, {Size: 8192}},
+	w.dev = newSim(simCfg{types: types, heaps: []core1_0.MemoryHeap{{Size: heap0}, {Size: 8192}},
 		granularity: w.gran, atom: w.atom, maxAllocs: w.maxAllocs})
 	opts := CreateOptions{}
 	if variant&4 != 0 {
@@ -121,6 +125,9 @@ func (w *vWorld) oracleC02(label string) {
 				minAlign = w.atom // the pool's minimum alignment for non-coherent host-visible memory
 			}
 			ok = verifAnd(ok, off&(minAlign-1) == 0)
+			if v.minAlign > 1 {
+				ok = verifAnd(ok, off&(v.minAlign-1) == 0)
+			}
 		} else {
 			ok = verifAnd(ok, off == 0)
 		}
